@@ -75,7 +75,7 @@ class LoopHooks(Hooks):
 
     def tensor_attr(self, interp, recv, name, node, fi):
         if name in ("dtype", "device", "shape"):
-            return ("attr", name, Rat.lift(recv).key() if isinstance(recv, Rat) else repr(recv))
+            return f"{recv}.{name}"
         return NotImplemented
 
     def external_call(self, interp, dotted, args, kwargs, node, fi):
